@@ -40,7 +40,7 @@ func c13Decorate(rt *rapid.T, label string, n ANameAddr, lrOptional bool) ANameA
 
 func TestC13(t *testing.T) {
 	V.Rule("lab: Route sets of 0-6 entries over 1-6 header lines (',' / ', ' / one per line, odd-case names, any position among the other headers) whose first entry is the listener by address:port, by alias with port, by alias without port (listener on 5060), a near miss (alias without port on a listener not on 5060, listener address with another port, listener port on a foreign host, a name resolving elsewhere) or a plain next hop; entries with token/quoted display names, sip/sips URIs with users, ports, lr in any position, valued and valueless URI parameters, transport=udp|tcp, 0-3 header parameters; keep-next-hop-route in every accepted spelling and via the environment default; UDP and TCP ingress on three listen entries; each route set is sent up to three times (same Route lines; new Call-ID and branch, or the same branch again with the same or another Call-ID). Oracle: reference model - consumed iff port (default 5060) equals the listener's port and host equals its address or resolves to it; hop = first remaining entry; relayed list = input - consumed - (hop unless keep), textually and in order; near misses consume nothing and are themselves the hop. non-trivial = >= 3 entries in >= 2 lines with an alias or near-miss first entry, or entries with header parameters; distinct by message")
-	V.Require("first:alias without port (listener on 5060)", "first:alias without port (listener not on 5060) - near miss", "first:listener address, other port - near miss", "first:listener port on a foreign host - near miss", "first:name resolving to another address - near miss", "first:listener address:port", "first:alias:port", "first:alias written with capital letters, as configured", "keep:on", "keep:off", "same route set repeated", "same route set repeated with the same top Via branch", "own consumed", "entries with header parameters", ">=3 entries in >=2 lines")
+	V.Require("route set towards a tcp next hop that refuses connections, then accepts them", "first:alias without port (listener on 5060)", "first:alias without port (listener not on 5060) - near miss", "first:listener address, other port - near miss", "first:listener port on a foreign host - near miss", "first:name resolving to another address - near miss", "first:listener address:port", "first:alias:port", "first:alias written with capital letters, as configured", "keep:on", "keep:off", "same route set repeated", "same route set repeated with the same top Via branch", "own consumed", "entries with header parameters", ">=3 entries in >=2 lines")
 	variants := []stdVariant{{Keep: ""}, {Keep: "on"}, {Keep: "Y"}, {Keep: "0"}, {Keep: "", KeepEnv: "true"}, {Keep: "false", KeepEnv: "true"}}
 	var svcs []*stdSvc
 	for _, v := range variants {
@@ -87,6 +87,24 @@ func TestC13(t *testing.T) {
 		return ""
 	})
 
+	rcheck(t, "refusing-hop", V.N(10, 120), func(rt *rapid.T) {
+		s := svcs[rapid.IntRange(0, 1).Draw(rt, "instance")]
+		obs, ok, err := s.hopOutage(rt, t.Name()+"/refusing-hop", false)
+		if _, lost := err.(labLost); lost {
+			failf(rt, "%v\nhistory: %s", err, obs)
+		} else if err != nil {
+			V.HarnessError(rt, "%v", err)
+		}
+		if !ok {
+			return
+		}
+		V.Class("route set towards a tcp next hop that refuses connections, then accepts them")
+		V.NonTrivial("refusing|" + obs.String())
+		V.SampleEvery(10, func() any { return obs })
+		if f := hopRoutes(obs); f != "" {
+			failf(rt, "%s", f)
+		}
+	})
 	rcheck(t, "routes", V.N(3000, 20000), func(rt *rapid.T) {
 		vi := rapid.IntRange(0, len(svcs)-1).Draw(rt, "instance")
 		s := svcs[vi]
